@@ -1,6 +1,7 @@
 package app
 
 import (
+	"encoding/binary"
 	"encoding/json"
 	"fmt"
 	"os"
@@ -46,14 +47,31 @@ const (
 	verifC30OpFloorNearStep  // shared last id plus Param sequence steps (may or may not be passed yet)
 	verifC30OpFloorNearMs    // shared last id plus Param milliseconds
 	verifC30OpFloorFarFuture // shared last id plus Param hours
+	// uint64 boundary classes (a restored maximum is any uint64 found in the
+	// restored data, not necessarily a positive-int64 Snowflake value)
+	verifC30OpFloorInt63Edge  // (1<<63 - 1) - Off
+	verifC30OpFloorTopBit     // (1<<63) + Off
+	verifC30OpFloorMaxU64     // MaxUint64 - Off
+	verifC30OpFloorTopShaped  // 1<<63 | a Snowflake-shaped id (Param selects: own last/own first/shared/fresh probe/own last - 1000 ms)
+	verifC30OpFloorTopRandom  // 1<<63 | Off (63 generated bits)
+	verifC30OpFloorSameMs     // millisecond of a fresh probe (+Param ms), node bits chosen by NodeRel, step bits by StepRel/Off
 	verifC30OpKinds
 )
 
-var verifC30OpNames = [...]string{"next", "yield", "floor0", "floorOwnLast", "floorOwnFirst", "floorShared", "floorPast", "floorNearStep", "floorNearMs", "floorFar"}
+const (
+	verifC30OldFloorKinds = verifC30OpFloorFarFuture - verifC30OpFloorZero + 1
+	verifC30Top           = uint64(1) << 63
+)
+
+var verifC30OpNames = [...]string{"next", "yield", "floor0", "floorOwnLast", "floorOwnFirst", "floorShared", "floorPast", "floorNearStep", "floorNearMs", "floorFar",
+	"floorInt63Edge", "floorTopBit", "floorMaxU64", "floorTopShaped", "floorTopRandom", "floorSameMs"}
 
 type verifC30Op struct {
-	Kind  int
-	Param int
+	Kind    int
+	Param   int
+	Off     uint64 `json:",omitempty"`
+	NodeRel int    `json:",omitempty"` // same-ms fence: -2 node 0, -1 own node-1, 0 own node, +1 own node+1, +2 node 1023
+	StepRel int    `json:",omitempty"` // same-ms fence: -2 step 0, -1 probe step-Off, 0 probe step, +1 probe step+Off, +2 step 4095
 }
 
 type verifC30Rec struct {
@@ -70,6 +88,19 @@ type verifC30Rec struct {
 	FloorAfter uint64 `json:"floorAfter,omitempty"`
 	isNext     bool
 	isFloor    bool
+	kind       int
+}
+
+// verifC30OffGen draws the distance k from a uint64 boundary: 0, 1, a few,
+// within one millisecond worth of id space, anything up to 2^62.
+func verifC30OffGen() *rapid.Generator[uint64] {
+	return rapid.OneOf(
+		rapid.Just(uint64(0)),
+		rapid.Just(uint64(1)),
+		rapid.Uint64Range(2, 64),
+		rapid.Uint64Range(65, 1<<22),
+		rapid.Uint64Range(1<<22, 1<<62),
+	)
 }
 
 func verifC30OpGen() *rapid.Generator[verifC30Op] {
@@ -81,9 +112,31 @@ func verifC30OpGen() *rapid.Generator[verifC30Op] {
 		case w < 70:
 			return verifC30Op{Kind: verifC30OpYield}
 		}
-		k := rapid.IntRange(verifC30OpFloorZero, verifC30OpKinds-1).Draw(t, "floorKind")
+		// 50% the fences of the original design, 20% fences inside the
+		// allocator's current millisecond, 30% uint64 boundary fences
+		var k int
+		switch c := rapid.IntRange(0, 99).Draw(t, "floorClass"); {
+		case c < 50:
+			k = rapid.IntRange(verifC30OpFloorZero, verifC30OpFloorFarFuture).Draw(t, "floorKind")
+		case c < 70:
+			k = verifC30OpFloorSameMs
+		default:
+			k = rapid.IntRange(verifC30OpFloorInt63Edge, verifC30OpFloorTopRandom).Draw(t, "boundaryKind")
+		}
 		p := 0
 		switch k {
+		case verifC30OpFloorInt63Edge, verifC30OpFloorTopBit, verifC30OpFloorMaxU64:
+			return verifC30Op{Kind: k, Off: verifC30OffGen().Draw(t, "k")}
+		case verifC30OpFloorTopShaped:
+			return verifC30Op{Kind: k, Param: rapid.IntRange(0, 4).Draw(t, "base")}
+		case verifC30OpFloorTopRandom:
+			return verifC30Op{Kind: k, Off: rapid.Uint64().Draw(t, "bits") &^ verifC30Top}
+		case verifC30OpFloorSameMs:
+			return verifC30Op{Kind: k,
+				Param:   rapid.SampledFrom([]int{0, 0, 0, 0, 1, -1}).Draw(t, "dms"),
+				NodeRel: rapid.IntRange(-2, 2).Draw(t, "nodeRel"),
+				StepRel: rapid.IntRange(-2, 2).Draw(t, "stepRel"),
+				Off:     rapid.Uint64Range(1, 40).Draw(t, "dstep")}
 		case verifC30OpFloorPast:
 			p = rapid.IntRange(1, 5000).Draw(t, "ms")
 		case verifC30OpFloorNearStep:
@@ -97,8 +150,75 @@ func verifC30OpGen() *rapid.Generator[verifC30Op] {
 	})
 }
 
-func verifC30Resolve(op verifC30Op, ownFirst, ownLast, shared uint64) uint64 {
+func verifC30Resolve(op verifC30Op, nodeID, ownFirst, ownLast, shared, probe uint64) uint64 {
 	switch op.Kind {
+	case verifC30OpFloorInt63Edge:
+		return verifC30Top - 1 - op.Off
+	case verifC30OpFloorTopBit:
+		return verifC30Top + op.Off
+	case verifC30OpFloorMaxU64:
+		return ^uint64(0) - op.Off
+	case verifC30OpFloorTopRandom:
+		return verifC30Top | op.Off
+	case verifC30OpFloorTopShaped:
+		base := probe
+		switch op.Param {
+		case 0:
+			base = ownLast
+		case 1:
+			base = ownFirst
+		case 2:
+			base = shared
+		case 4:
+			if d := uint64(1000) << 22; ownLast > d {
+				base = ownLast - d
+			}
+		}
+		if base == 0 {
+			base = probe
+		}
+		return verifC30Top | base
+	case verifC30OpFloorSameMs:
+		ms := probe >> 22
+		switch {
+		case op.Param > 0:
+			ms++
+		case op.Param < 0 && ms > 0:
+			ms--
+		}
+		node := nodeID
+		switch op.NodeRel {
+		case -2:
+			node = 0
+		case -1:
+			if node > 0 {
+				node--
+			}
+		case 1:
+			if node < 1023 {
+				node++
+			}
+		case 2:
+			node = 1023
+		}
+		step := probe & 0xfff
+		switch op.StepRel {
+		case -2:
+			step = 0
+		case -1:
+			if step > op.Off {
+				step -= op.Off
+			} else {
+				step = 0
+			}
+		case 1:
+			if step += op.Off; step > 0xfff {
+				step = 0xfff
+			}
+		case 2:
+			step = 0xfff
+		}
+		return ms<<22 | node<<12 | step
 	case verifC30OpFloorZero:
 		return 0
 	case verifC30OpFloorOwnLast:
@@ -121,6 +241,106 @@ func verifC30Resolve(op verifC30Op, ownFirst, ownLast, shared uint64) uint64 {
 		return shared + uint64(op.Param)*3600_000<<22
 	}
 	return 0
+}
+
+// Measured fence classes (from the resolved fence value, the probes taken on
+// both sides of the call and the call's result — not from the drawn kind).
+const (
+	verifC30ClsInt63Max = iota
+	verifC30ClsInt63Below
+	verifC30ClsTop
+	verifC30ClsTopPlus
+	verifC30ClsMaxU64
+	verifC30ClsMaxU64Below
+	verifC30ClsTopShaped
+	verifC30ClsTopRandom
+	verifC30ClsTopRefused
+	verifC30ClsMsNodeHigher
+	verifC30ClsMsNodeLower
+	verifC30ClsMsStepHigher
+	verifC30ClsMsStepLowerEq
+	verifC30ClsMsRefused
+	verifC30ClsMsAccepted
+	verifC30ClsN
+)
+
+var verifC30ClsNames = [verifC30ClsN]string{
+	"fence = 1<<63-1",
+	"fence = 1<<63-1-k (k>0)",
+	"fence = 1<<63",
+	"fence = 1<<63+k (k>0)",
+	"fence = MaxUint64",
+	"fence = MaxUint64-k (k>0)",
+	"fence = top bit | Snowflake-shaped id",
+	"fence = top bit | generated low bits",
+	"fence >= 1<<63 refused",
+	"fence in the call's millisecond: node bits above the allocator's",
+	"fence in the call's millisecond: node bits below the allocator's",
+	"fence in the call's millisecond: own node, step above the pre-call probe",
+	"fence in the call's millisecond: own node, step at/below the pre-call probe",
+	"fence in the call's millisecond refused",
+	"fence in the call's millisecond accepted",
+}
+
+var verifC30ClsKeys = [verifC30ClsN]string{
+	"fence_calls_int63max", "fence_calls_int63max_minus_k", "fence_calls_2p63", "fence_calls_2p63_plus_k",
+	"fence_calls_maxu64", "fence_calls_maxu64_minus_k", "fence_calls_topbit_shaped", "fence_calls_topbit_random",
+	"fence_calls_topbit_refused",
+	"fence_calls_same_ms_node_higher", "fence_calls_same_ms_node_lower", "fence_calls_same_ms_step_higher", "fence_calls_same_ms_step_lower_eq",
+	"fence_calls_same_ms_refused", "fence_calls_same_ms_accepted",
+}
+
+type verifC30Cls [verifC30ClsN]int
+
+func (c *verifC30Cls) add(kind int, nodeID, f, pre, post uint64, refused bool) {
+	switch {
+	case f == verifC30Top-1:
+		c[verifC30ClsInt63Max]++
+	case kind == verifC30OpFloorInt63Edge:
+		c[verifC30ClsInt63Below]++
+	case f == verifC30Top:
+		c[verifC30ClsTop]++
+	case f == ^uint64(0):
+		c[verifC30ClsMaxU64]++
+	case kind == verifC30OpFloorMaxU64:
+		c[verifC30ClsMaxU64Below]++
+	case kind == verifC30OpFloorTopBit:
+		c[verifC30ClsTopPlus]++
+	case kind == verifC30OpFloorTopShaped:
+		c[verifC30ClsTopShaped]++
+	case kind == verifC30OpFloorTopRandom:
+		c[verifC30ClsTopRandom]++
+	}
+	if f >= verifC30Top && refused {
+		c[verifC30ClsTopRefused]++
+	}
+	// the whole call took place inside one millisecond and the fence carries it
+	if f>>22 == pre>>22 && f>>22 == post>>22 {
+		switch fn := (f >> 12) & 0x3ff; {
+		case fn > nodeID:
+			c[verifC30ClsMsNodeHigher]++
+		case fn < nodeID:
+			c[verifC30ClsMsNodeLower]++
+		case f&0xfff > pre&0xfff:
+			c[verifC30ClsMsStepHigher]++
+		default:
+			c[verifC30ClsMsStepLowerEq]++
+		}
+		if refused {
+			c[verifC30ClsMsRefused]++
+		} else {
+			c[verifC30ClsMsAccepted]++
+		}
+	}
+}
+
+func (c *verifC30Cls) report(col *kit.Collector, k *kit.Case, prefix string) {
+	for i, n := range c {
+		k.LabelIf(n > 0, prefix+verifC30ClsNames[i])
+		if n > 0 {
+			col.AddExtra(verifC30ClsKeys[i], int64(n))
+		}
+	}
 }
 
 var verifC30Saved atomic.Int32
@@ -232,14 +452,14 @@ func TestVerifC30Concurrent(t *testing.T) {
 					case verifC30OpYield:
 						runtime.Gosched()
 					default:
-						f := verifC30Resolve(op, ownFirst, ownLast, shared.Load())
 						pre := uint64(ids.node.Generate())
+						f := verifC30Resolve(op, nodeID, ownFirst, ownLast, shared.Load(), pre)
 						s := clock.Add(1)
 						err := ids.SetFloor(f)
 						e := clock.Add(1)
 						after := ids.floor.Load()
 						post := uint64(ids.node.Generate())
-						r := verifC30Rec{G: gi, I: i, Kind: verifC30OpNames[op.Kind], Start: s, End: e, Floor: f, Pre: pre, Post: post, FloorAfter: after, isFloor: true}
+						r := verifC30Rec{G: gi, I: i, Kind: verifC30OpNames[op.Kind], Start: s, End: e, Floor: f, Pre: pre, Post: post, FloorAfter: after, isFloor: true, kind: op.Kind}
 						if err != nil {
 							r.Err = err.Error()
 						}
@@ -301,7 +521,9 @@ func TestVerifC30Concurrent(t *testing.T) {
 			}
 		}
 		var nilFloors, rejFloors, raisedNil, nearAccepted, nearRejected int
+		var cls verifC30Cls
 		for _, r := range floors {
+			cls.add(r.kind, nodeID, r.Floor, r.Pre, r.Post, r.Err != "")
 			if r.FloorAfter >= r.Post {
 				fail("floor %d observed after SetFloor(%d) (g%d#%d) is not below the next naturally generated id %d: a future value was synthesised", r.FloorAfter, r.Floor, r.G, r.I, r.Post)
 			}
@@ -446,7 +668,8 @@ func TestVerifC30Concurrent(t *testing.T) {
 		for _, sc := range scripts {
 			kb := make([]byte, 0, 3*len(sc)+1)
 			for _, op := range sc {
-				kb = append(kb, byte(op.Kind), byte(op.Param), byte(op.Param>>8))
+				kb = append(kb, byte(op.Kind), byte(op.Param), byte(op.Param>>8), byte(op.NodeRel), byte(op.StepRel))
+				kb = binary.LittleEndian.AppendUint64(kb, op.Off)
 			}
 			k.Key(kb)
 		}
@@ -460,6 +683,7 @@ func TestVerifC30Concurrent(t *testing.T) {
 		k.LabelIf(nearRejected > 0, "near-future fence rejected")
 		k.LabelIf(fenced > 0, "Next called after an accepted fence")
 		k.LabelIf(g >= 8, "goroutines >= 8")
+		cls.report(col, k, "")
 		col.AddExtra("next_calls", int64(len(nexts)))
 		col.AddExtra("setfloor_calls", int64(len(floors)))
 		k.Sample(func() any {
@@ -471,6 +695,7 @@ func TestVerifC30Concurrent(t *testing.T) {
 // TestVerifC30Sequential is the sequential model-based sub-check: one caller,
 // exact model of the floor after every step.
 func TestVerifC30Sequential(t *testing.T) {
+	col := kit.For(t, "C30")
 	kit.Check(t, "C30", func(rt *rapid.T, k *kit.Case) {
 		nodeID := rapid.SampledFrom([]uint64{0, 3, 1023}).Draw(rt, "node")
 		ops := rapid.SliceOfN(verifC30OpGen(), 1, 60).Draw(rt, "ops")
@@ -484,6 +709,7 @@ func TestVerifC30Sequential(t *testing.T) {
 		}
 		var first, last, maxFence uint64
 		var accepted, rejected, raised int
+		var cls verifC30Cls
 		issued := map[uint64]bool{}
 		// model: the floor value
 		model := uint64(0)
@@ -519,8 +745,8 @@ func TestVerifC30Sequential(t *testing.T) {
 				if base == 0 {
 					base = uint64(ids.node.Generate())
 				}
-				f := verifC30Resolve(op, first, last, base)
 				pre := uint64(ids.node.Generate())
+				f := verifC30Resolve(op, nodeID, first, last, base, pre)
 				err := ids.SetFloor(f)
 				after := ids.floor.Load()
 				post := uint64(ids.node.Generate())
@@ -529,6 +755,7 @@ func TestVerifC30Sequential(t *testing.T) {
 					r.Err = err.Error()
 				}
 				hist = append(hist, r)
+				cls.add(op.Kind, nodeID, f, pre, post, err != nil)
 				switch {
 				case err != nil:
 					rejected++
@@ -564,6 +791,7 @@ func TestVerifC30Sequential(t *testing.T) {
 		k.LabelIf(accepted > 0, "seq: fence accepted")
 		k.LabelIf(raised > 0, "seq: fence raised the floor")
 		k.LabelIf(rejected > 0, "seq: fence rejected")
+		cls.report(col, k, "seq: ")
 		k.Sample(func() any {
 			return fmt.Sprintf("sequential ops=%d ids=%d accepted=%d raised=%d rejected=%d", len(ops), len(issued), accepted, raised, rejected)
 		})
